@@ -14,6 +14,7 @@ classify the outcome.
   //@before #<k>/<n> <snippet>                          ... the k-th of exactly n body lines containing <snippet>
   //@body-start                                         following lines go right after the opening brace of the body
   //@end
+  //@include <unit>                                     paste the verus! body of units/<unit>.vspec here (re-extracted, re-verified)
 
 What extraction changes is limited to: dropping the item's leading doc comments/attributes (R0), the
 automatic reference-pattern desugarings R1-R3, naming the return value (R7: `-> T` becomes
@@ -56,9 +57,13 @@ def auto_rewrites(text):
             counts[label] = counts.get(label, 0) + n
         return s2
 
-    # R1  for &x in E {      ->  for x__r in E { let x = *x__r;
-    text = sub('R1 for-ref-pattern', r'\bfor\s+&([a-z_][A-Za-z0-9_]*)\s+in\s+([^{]+?)\s*\{',
-               r'for \1__r in \2 { let \1 = *\1__r;', text)
+    # R1  for &x in E {      ->  for x__r in it__x: E { let x = *x__r;     (also names the ghost iterator, see R12)
+    text = sub('R1 for-ref-pattern', r'\bfor\s+&([a-z_][A-Za-z0-9_]*)\s+in\s+(?![a-z_][A-Za-z0-9_]*\s*:[^:])([^{]+?)\s*\{',
+               r'for \1__r in it__\1: \2 { let \1 = *\1__r;', text)
+    # R12 for x in E {       ->  for x in it__x: E {      (Verus syntax naming the loop's ghost iterator so that invariants
+    #                                                      can mention the position; no executable meaning)
+    text = sub('R12 name-ghost-iterator', r'\bfor\s+([a-z_][A-Za-z0-9_]*)\s+in\s+(?![a-z_][A-Za-z0-9_]*\s*:[^:])([^{]+?)\s*\{',
+               r'for \1 in it__\1: \2 {', text)
     # R2  if let Some(&x) = E {  /  while let Some(&x) = E {
     text = sub('R2 if-let-ref-pattern', r'\b(if|while)\s+let\s+Some\(&([a-z_][A-Za-z0-9_]*)\)\s*=\s*([^{]+?)\s*\{',
                r'\1 let Some(\2__r) = \3 { let \2 = *\2__r;', text)
@@ -111,6 +116,34 @@ def parse_vspec(path):
         s = raw.strip()
         if s.startswith('//@'):
             d = s[3:].strip()
+            if d.startswith('include '):
+                # paste the body of another unit's verus! block (everything between its `verus! {` line and its
+                # closing `} // verus!` line), directives included: the included functions are re-extracted and re-verified here
+                if cur_text:
+                    parts.append(('text', cur_text))
+                    cur_text = []
+                inc = os.path.join(os.path.dirname(path), d.split()[1] + '.vspec')
+                sub = parse_vspec(inc)
+                started = False
+                for kind, pp in sub:
+                    if kind == 'text':
+                        keep = []
+                        for l in pp:
+                            if not started:
+                                if l.text.strip().startswith('verus! {'):
+                                    started = True
+                                continue
+                            if l.text.strip().startswith('} // verus!'):
+                                started = None
+                                break
+                            keep.append(Line(l.text, ('vspec-include', os.path.basename(inc), l.origin[1])))
+                        if keep:
+                            parts.append(('text', keep))
+                        if started is None:
+                            break
+                    elif started:
+                        parts.append((kind, pp))
+                continue
             if d.startswith('extract-item '):
                 if cur_text:
                     parts.append(('text', cur_text))
@@ -309,6 +342,10 @@ def render_extract(ex, report, vacuity=False):
         _, brace_off, _ = loops[k]
         li = bmsk.count('\n', 0, brace_off)
         col = brace_off - (bmsk.rfind('\n', 0, brace_off) + 1) + 1
+        # stay behind the `let x = *x__r;` that R1 put right after the brace
+        m = re.match(r'\s*let [a-z_][A-Za-z0-9_]* = \*[a-z_][A-Za-z0-9_]*__r;', bmsk[brace_off + 1:])
+        if m:
+            col += m.end()
         inline[(li, col)] = lines
     rep['loops'] = len(loops)
     rep['loops_with_invariant'] = len(ex.loops)
@@ -375,7 +412,8 @@ VERIF_FAIL_PAT = re.compile(
 RLIMIT_PAT = re.compile(r'resource limit|rlimit|timed out|timeout', re.I)
 
 
-def run_verus(lines, workdir, name, rlimit=30, threads=8, extra=()):
+def run_verus(lines, workdir, name, rlimit=30, threads=8, extra=(), wall=None):
+    wall = wall or int(os.environ.get('VERIF_VERUS_WALL', '900'))
     os.makedirs(workdir, exist_ok=True)
     f = os.path.join(workdir, name + '.rs')
     with open(f, 'w') as fh:
@@ -384,7 +422,16 @@ def run_verus(lines, workdir, name, rlimit=30, threads=8, extra=()):
            '--rlimit', str(rlimit), '--num-threads', str(threads), '--no-report-long-running', *extra]
     t0 = time.time()
     try:
-        p = subprocess.run(cmd, cwd=workdir, capture_output=True, text=True, timeout=3600)
+        # own process group: on a wall-clock timeout the z3 children are killed too (nonlinear queries ignore rlimit)
+        pr = subprocess.Popen(cmd, cwd=workdir, stdout=subprocess.PIPE, stderr=subprocess.PIPE, text=True, start_new_session=True)
+        try:
+            so, se = pr.communicate(timeout=wall)
+        except subprocess.TimeoutExpired:
+            import signal
+            os.killpg(pr.pid, signal.SIGKILL)
+            pr.communicate()
+            raise
+        p = subprocess.CompletedProcess(cmd, pr.returncode, so, se)
     except subprocess.TimeoutExpired:
         return {'status': 'undecided', 'reason': 'verus wall-clock timeout', 'cmd': ' '.join(cmd), 'wall_s': time.time() - t0,
                 'verified': 0, 'errors': 0, 'failures': [], 'other_errors': ['timeout'], 'smt_ms': 0}
